@@ -6,6 +6,10 @@
 From Coq Require Import List ZArith Lia Bool String NArith Permutation.
 From GS Require Import Spec.Base Spec.PB Spec.Solver Spec.URef.
 From GS Require Import Judge.Sx Judge.JCommon Judge.J01 Judge.J03 Judge.J04 Judge.J05 Judge.J09 Judge.J14.
+From GS Require Import Proofs.Solve.
+From GS Require Proofs.Rup Proofs.PBNorm.
+From GS Require Import Model.Rup.
+From GS Require Import Judge.J11.
 Import ListNotations.
 Open Scope Z_scope.
 Open Scope list_scope.
@@ -224,4 +228,394 @@ Proof.
   intros n P. induction cs as [|c0 cs IH]; intros k H c Hin; [destruct Hin|].
   cbn [first_not_entailed] in H. destruct (entailed n P c0) eqn:E; [|discriminate].
   destruct Hin as [<-|Hin]; [apply entailed_sound; exact E|apply (IH _ H c Hin)].
+Qed.
+
+(* ------------------------------------------------------------------ *)
+(* C09 / C10: histories                                                 *)
+
+Lemma maxvar_terms_ge : forall ts t, In t ts -> Z.abs (snd t) <= maxvar_terms ts.
+Proof.
+  induction ts as [|x ts IH]; intros t H; [destruct H|]. cbn [maxvar_terms].
+  destruct H as [<-|H]; [apply Z.le_max_l|].
+  apply (Z.le_trans _ _ _ (IH t H)). apply Z.le_max_r.
+Qed.
+
+Lemma maxvar_terms_nonneg : forall ts, 0 <= maxvar_terms ts.
+Proof.
+  induction ts as [|x ts IH]; cbn [maxvar_terms]; [lia|].
+  apply (Z.le_trans _ _ _ IH). apply Z.le_max_r.
+Qed.
+
+Lemma maxvar_uproblem_nonneg : forall P, 0 <= maxvar_uproblem P.
+Proof. induction P as [|c P IH]; cbn [maxvar_uproblem]; [lia|]. pose proof (maxvar_terms_nonneg (u_terms c)). lia. Qed.
+
+Lemma maxvar_uproblem_app : forall P Q,
+  maxvar_uproblem (P ++ Q) = Z.max (maxvar_uproblem P) (maxvar_uproblem Q).
+Proof.
+  induction P as [|c P IH]; intros Q; cbn [app maxvar_uproblem].
+  - pose proof (maxvar_uproblem_nonneg Q). lia.
+  - rewrite IH. lia.
+Qed.
+
+Lemma sat_uc_fit : forall N m c, wf_uc c -> maxvar_terms (u_terms c) <= Z.of_nat N ->
+  sat_uc (fit N m) c = sat_uc m c.
+Proof.
+  intros N m c Hwf Hm. unfold sat_uc. rewrite lhs_fit; [reflexivity|].
+  intros l Hl. split; [apply (Hwf l Hl)|].
+  apply in_map_iff in Hl. destruct Hl as [t [<- Ht]].
+  apply (Z.le_trans _ _ _ (maxvar_terms_ge _ t Ht)). exact Hm.
+Qed.
+
+Lemma sat_uproblem_fit : forall N m P, Forall wf_uc P -> maxvar_uproblem P <= Z.of_nat N ->
+  sat_uproblem (fit N m) P = sat_uproblem m P.
+Proof.
+  intros N m P. unfold sat_uproblem. induction P as [|c P IH]; intros Hwf Hm; [reflexivity|].
+  inversion Hwf as [|? ? Hc HP]; subst. cbn [maxvar_uproblem] in Hm.
+  pose proof (maxvar_uproblem_nonneg P). pose proof (maxvar_terms_nonneg (u_terms c)).
+  cbn [forallb]. rewrite IH by (try assumption; lia). rewrite sat_uc_fit by (try assumption; lia).
+  reflexivity.
+Qed.
+
+(* an Unsat verdict over n variables excludes models of every length when the
+   problem only mentions variables 1..n *)
+Lemma unsat_any_length : forall n P, Forall wf_uc P -> maxvar_uproblem P <= Z.of_nat n ->
+  (forall m, List.length m = n -> sat_uproblem m P = false) -> forall m, sat_uproblem m P = false.
+Proof.
+  intros n P Hwf Hm H. apply (no_model_any_length (fun m => sat_uproblem m P) n); [|exact H].
+  intros m. apply sat_uproblem_fit; assumption.
+Qed.
+
+Definition wf_hop (o : hop) : Prop := match o with HSolve => True | HAdd c => wf_uc c end.
+
+(* every answered Solve is correct for the conjunction of the constraints
+   added so far, over the variables seen so far *)
+Fixpoint history_correct (n : nat) (P : uproblem) (ops : list hop) (answers : list (Z * list bool)) : Prop :=
+  match ops with
+  | [] => answers = []
+  | HAdd c :: r =>
+      history_correct (Nat.max n (Z.to_nat (maxvar_terms (u_terms c)))) (P ++ [c]) r answers
+  | HSolve :: r =>
+      match answers with
+      | [] => False
+      | (vd, m) :: ar => solve_correct n P vd m /\ history_correct n P r ar
+      end
+  end.
+
+(* after an Unsat answer every later answer is Unsat *)
+Fixpoint sticky (dead : bool) (ops : list hop) (answers : list (Z * list bool)) : Prop :=
+  match ops with
+  | [] => True
+  | HAdd _ :: r => sticky dead r answers
+  | HSolve :: r =>
+      match answers with
+      | [] => True
+      | (vd, _) :: ar => (dead = true -> vd = 2) /\ sticky (dead || (vd =? 2)) r ar
+      end
+  end.
+
+Theorem judge_history_sound : forall ops n P dead ans k i,
+  judge_history n P dead ops ans k = Ok i ->
+  Forall wf_uc P -> Forall wf_hop ops -> maxvar_uproblem P <= Z.of_nat n ->
+  (dead = true -> forall m, sat_uproblem m P = false) ->
+  history_correct n P ops ans /\ sticky dead ops ans.
+Proof.
+  induction ops as [|o ops IH]; intros n P dead ans k i H HwfP Hops Hmax Hdead.
+  - cbn [judge_history] in H. destruct ans; [|discriminate]. split; [reflexivity|exact Logic.I].
+  - inversion Hops as [|? ? Ho Hr]; subst. destruct o as [|c].
+    + cbn [judge_history] in H. destruct ans as [|[vd m] ar]; [discriminate|].
+      cbn [history_correct sticky]. destruct dead.
+      * destruct (vd =? 2) eqn:E2; [|discriminate]. apply Z.eqb_eq in E2.
+        destruct (IH _ _ _ _ _ _ H HwfP Hr Hmax Hdead) as [A B].
+        split; [split; [|exact A]|split; [intros _; exact E2|exact B]].
+        right. split; [exact E2|]. intros m' _. apply Hdead. reflexivity.
+      * destruct (judge_solve n P vd m) as [j| |] eqn:Ej; try discriminate.
+        pose proof (judge_solve_sound _ _ _ _ _ Ej) as Hc.
+        assert (Hd' : (vd =? 2) = true -> forall m0, sat_uproblem m0 P = false).
+        { intros E2. apply Z.eqb_eq in E2. destruct Hc as [[E1 _]|[_ Hc]]; [lia|].
+          apply (unsat_any_length n P HwfP Hmax Hc). }
+        destruct (IH _ _ _ _ _ _ H HwfP Hr Hmax Hd') as [A B].
+        split; [split; assumption|split; [discriminate|exact B]].
+    + cbn [judge_history] in H. cbn [history_correct sticky]. cbn [wf_hop] in Ho.
+      apply (IH _ _ _ _ _ _ H).
+      * apply Forall_app. split; [exact HwfP|constructor; [exact Ho|constructor]].
+      * exact Hr.
+      * rewrite maxvar_uproblem_app. cbn [maxvar_uproblem].
+        pose proof (maxvar_terms_nonneg (u_terms c)). lia.
+      * intros Hd m. rewrite sat_uproblem_app, (Hdead Hd m). reflexivity.
+Qed.
+
+(* the top-level call: dead = false *)
+Corollary judge_history_top : forall ops n P ans i,
+  judge_history n P false ops ans 0 = Ok i ->
+  Forall wf_uc P -> Forall wf_hop ops -> maxvar_uproblem P <= Z.of_nat n ->
+  history_correct n P ops ans /\ sticky false ops ans.
+Proof.
+  intros ops n P ans i H H1 H2 H3. apply (judge_history_sound _ _ _ _ _ _ _ H H1 H2 H3). discriminate.
+Qed.
+
+(* what the decoders deliver is well formed *)
+Lemma omap_Forall : forall (A B : Type) (f : A -> option B) (Q : B -> Prop),
+  (forall a b, f a = Some b -> Q b) -> forall l l', omap f l = Some l' -> Forall Q l'.
+Proof.
+  intros A B f Q Hf. induction l as [|a l IH]; intros l' H; cbn [omap] in H.
+  - injection H as <-. constructor.
+  - destruct (f a) as [b|] eqn:Ea; [|discriminate]. destruct (omap f l) as [bs|]; [|discriminate].
+    injection H as <-. constructor; [apply (Hf a b Ea)|apply IH; reflexivity].
+Qed.
+
+Lemma dterm_wf : forall s t, dterm s = Some t -> snd t <> 0.
+Proof.
+  intros s t H. unfold dterm in H.
+  destruct s as [z|[|[w|?] [|[l|?] [|? ?]]]]; try discriminate.
+  destruct (l =? 0) eqn:E; [discriminate|]. injection H as <-. apply Z.eqb_neq in E. exact E.
+Qed.
+
+Lemma duc_wf : forall s c, duc s = Some c -> wf_uc c.
+Proof.
+  intros s c H. unfold duc in H.
+  destruct s as [z|[|[r|?] [|[rhs|?] ts]]]; try discriminate.
+  destruct (drel r); [|discriminate]. destruct (omap dterm ts) as [ts'|] eqn:E; [|discriminate].
+  injection H as <-. unfold wf_uc. cbn [u_terms].
+  pose proof (omap_Forall _ _ dterm (fun t => snd t <> 0) dterm_wf ts ts' E) as HF.
+  intros l Hl. apply in_map_iff in Hl. destruct Hl as [t [<- Ht]].
+  rewrite Forall_forall in HF. apply HF. exact Ht.
+Qed.
+
+Lemma duproblem_wf : forall s n P, duproblem s = Some (n, P) -> Forall wf_uc P.
+Proof.
+  intros s n P H. unfold duproblem in H.
+  destruct s as [z|[|nn [|[?|cs] [|? ?]]]]; try discriminate.
+  destruct (dnat nn); [|discriminate]. destruct (omap duc cs) as [cs'|] eqn:E; [|discriminate].
+  injection H as _ <-. apply (omap_Forall _ _ duc wf_uc duc_wf cs cs' E).
+Qed.
+
+Lemma dhop_wf : forall s o, dhop s = Some o -> wf_hop o.
+Proof.
+  intros s o H. unfold dhop in H.
+  destruct s as [z|[|[z|?] rest]]; try discriminate.
+  destruct z as [|p|p]; [destruct rest; [injection H as <-; exact Logic.I|discriminate]| |discriminate].
+  destruct p; try discriminate.
+  destruct (duc (L rest)) as [c|] eqn:E; [|discriminate]. injection H as <-. apply (duc_wf _ _ E).
+Qed.
+
+(* the whole C09 judge, decoding included *)
+Theorem judge_C09_sound : forall pb ops st answers n P ops' ans i,
+  duproblem pb = Some (n, P) -> omap dhop ops = Some ops' -> omap danswer answers = Some ans ->
+  judge_C09 (L [L [pb; L ops]; L (I st :: answers)]) = Ok i ->
+  history_correct n P ops' ans /\ sticky false ops' ans.
+Proof.
+  intros pb ops st answers n P ops' ans i Hp Ho Ha H. unfold judge_C09 in H. rewrite Hp, Ho, Ha in H.
+  destruct (Z.of_nat n <? maxvar_uproblem P) eqn:En; [discriminate|]. apply Z.ltb_ge in En.
+  unfold status_fail in H. destruct (st =? 1); [discriminate|]. destruct (st =? 2); [discriminate|].
+  apply (judge_history_top _ _ _ _ _ H); [apply (duproblem_wf _ _ _ Hp)| |exact En].
+  apply (omap_Forall _ _ dhop wf_hop dhop_wf ops ops' Ho).
+Qed.
+
+(* C10: every round is answered correctly for base + this round's assumptions *)
+Lemma sat_unit_ucs : forall m ls, sat_uproblem m (map unit_uc ls) = forallb (lit_val m) ls.
+Proof.
+  intros m ls. unfold sat_uproblem. induction ls as [|l ls IH]; [reflexivity|].
+  cbn [map forallb]. rewrite IH. f_equal. unfold sat_uc, unit_uc. cbn [u_rel u_terms u_rhs lhs].
+  unfold term_val. cbn [fst snd]. destruct (lit_val m l); reflexivity.
+Qed.
+
+Definition round_correct (n : nat) (P : uproblem) (ls : list Z) (a : Z * list bool) : Prop :=
+  (fst a = 1 /\ List.length (snd a) = n /\ sat_uproblem (snd a) P = true /\
+   forallb (lit_val (snd a)) ls = true) \/
+  (fst a = 2 /\ forall m', List.length m' = n -> sat_uproblem m' P = true ->
+                            forallb (lit_val m') ls = false).
+
+Theorem judge_rounds_sound : forall rounds n P ans k i,
+  judge_rounds n P rounds ans k = Ok i -> Forall2 (round_correct n P) rounds ans.
+Proof.
+  induction rounds as [|ls r IH]; intros n P ans k i H; destruct ans as [|[vd m] ar];
+    cbn [judge_rounds] in H; try discriminate; [constructor|].
+  destruct (judge_solve n (P ++ map unit_uc ls) vd m) as [j| |] eqn:Ej; try discriminate.
+  constructor; [|apply (IH _ _ _ _ _ H)].
+  apply judge_solve_sound in Ej. unfold round_correct. cbn [fst snd].
+  destruct Ej as [[E1 [L S]]|[E2 Hn]].
+  - left. rewrite sat_uproblem_app, sat_unit_ucs in S. apply andb_true_iff in S. tauto.
+  - right. split; [exact E2|]. intros m' L' S'. specialize (Hn m' L').
+    rewrite sat_uproblem_app, sat_unit_ucs, S' in Hn. exact Hn.
+Qed.
+
+(* ------------------------------------------------------------------ *)
+(* C12: the unit-propagation-pruned CNF search of Judge/J11.v           *)
+
+Lemma prefix_clause_wf : forall pre, wf_clause (prefix_clause pre (Z.of_nat (List.length pre))).
+Proof.
+  induction pre as [|b pre IH]; intros l Hl; [destruct Hl|].
+  cbn [prefix_clause] in Hl.
+  replace (Z.of_nat (List.length (b :: pre)) - 1) with (Z.of_nat (List.length pre)) in Hl
+    by (cbn [List.length]; lia).
+  destruct Hl as [<-|Hl]; [|apply (IH l Hl)].
+  cbn [List.length]. destruct b; lia.
+Qed.
+
+(* the clause forbidding the prefix is falsified by every extension of the prefix *)
+Lemma prefix_clause_false : forall pre suf,
+  sat_clause (rev pre ++ suf) (prefix_clause pre (Z.of_nat (List.length pre))) = false.
+Proof.
+  induction pre as [|b pre IH]; intros suf; [reflexivity|].
+  cbn [prefix_clause].
+  replace (Z.of_nat (List.length (b :: pre)) - 1) with (Z.of_nat (List.length pre))
+    by (cbn [List.length]; lia).
+  unfold sat_clause. cbn [existsb]. fold (sat_clause (rev (b :: pre) ++ suf) (prefix_clause pre (Z.of_nat (List.length pre)))).
+  cbn [rev]. rewrite <- app_assoc. cbn [app]. rewrite IH, orb_false_r.
+  set (k := Z.of_nat (List.length (b :: pre))).
+  assert (Hk : 0 < k) by (unfold k; cbn [List.length]; lia).
+  assert (Hv : var_val (rev pre ++ b :: suf) k = b).
+  { unfold var_val. rewrite app_nth2 by (rewrite rev_length; unfold k; cbn [List.length]; lia).
+    rewrite rev_length. replace (Z.to_nat (k - 1) - List.length pre)%nat with O
+      by (unfold k; cbn [List.length]; lia). reflexivity. }
+  unfold lit_val. destruct b.
+  - replace (0 <? - k) with false by (symmetry; apply Z.ltb_ge; lia).
+    rewrite Z.opp_involutive, Hv. reflexivity.
+  - replace (0 <? k) with true by (symmetry; apply Z.ltb_lt; lia). exact Hv.
+Qed.
+
+Theorem prune_up_sound : forall n F pre, wf_cnf F -> prune_up n F pre = true ->
+  forall suf, sat_cnf (rev pre ++ suf) F = false.
+Proof.
+  intros n F pre Hwf H suf. unfold prune_up in H.
+  destruct pre as [|b pre]; [discriminate|].
+  destruct (rup_line (S n) F (prefix_clause (b :: pre) (Z.of_nat (List.length (b :: pre))))) as [[|]|] eqn:E;
+    try discriminate.
+  destruct (sat_cnf (rev (b :: pre) ++ suf) F) eqn:Es; [|reflexivity].
+  pose proof (Proofs.Rup.rup_sound _ _ _ Hwf (prefix_clause_wf (b :: pre)) E _ Es) as Hc.
+  rewrite prefix_clause_false in Hc. discriminate.
+Qed.
+
+Theorem cnf_solve_up_none : forall n F, wf_cnf F -> cnf_solve_up n F = None ->
+  forall m, List.length m = n -> sat_cnf m F = false.
+Proof.
+  intros n F Hwf H m L. unfold cnf_solve_up in H.
+  exact (find_pruned_none n (prune_up n F) (fun m => sat_cnf m F)
+           (fun pre Hp => prune_up_sound n F pre Hwf Hp) [] H m L).
+Qed.
+
+(* no well-formedness needed: a returned model is checked *)
+Theorem cnf_solve_up_some : forall n F m, cnf_solve_up n F = Some m ->
+  List.length m = n /\ sat_cnf m F = true.
+Proof.
+  intros n F m H. unfold cnf_solve_up in H. apply find_pruned_some in H.
+  destruct H as [Hp [Hl _]]. split; [exact Hl|exact Hp].
+Qed.
+
+(* hence [export_has_model] decides whether the exported CNF has a model
+   extending the environment on the named variables *)
+Theorem export_has_model_spec : forall nb F names env,
+  wf_cnf F -> (forall p, In p names -> snd p <> 0) ->
+  (export_has_model nb F names env = true <->
+   exists m, List.length m = nb /\ sat_cnf m F = true /\
+             forall p, In p names -> var_val env (fst p) = lit_val m (snd p)).
+Proof.
+  intros nb F names env Hwf Hnm. unfold export_has_model.
+  set (units := map (fun p : Z * Z => if var_val env (fst p) then [snd p] else [- snd p]) names).
+  assert (Hwu : wf_cnf (units ++ F)).
+  { intros c Hc. apply in_app_iff in Hc. destruct Hc as [Hc|Hc]; [|apply (Hwf c Hc)].
+    unfold units in Hc. apply in_map_iff in Hc. destruct Hc as [[v x] [<- Hp]].
+    pose proof (Hnm _ Hp) as Hz. cbn [fst snd] in *. intros l Hl.
+    destruct (var_val env v); destruct Hl as [<-|[]]; lia. }
+  assert (Hone : forall m p, In p names ->
+            (sat_clause m (if var_val env (fst p) then [snd p] else [- snd p]) = true <->
+             var_val env (fst p) = lit_val m (snd p))).
+  { intros m [v x] Hp. pose proof (Hnm _ Hp) as Hz. cbn [fst snd] in *. unfold sat_clause.
+    destruct (var_val env v); cbn [existsb]; rewrite orb_false_r.
+    - split; intros A; symmetry; exact A.
+    - rewrite Proofs.PBNorm.lit_val_opp by exact Hz. rewrite negb_true_iff.
+      split; intros A; symmetry; exact A. }
+  assert (Hu : forall m, sat_cnf m units = true <->
+                         forall p, In p names -> var_val env (fst p) = lit_val m (snd p)).
+  { intros m. unfold sat_cnf, units. rewrite forallb_forall. split.
+    - intros H p Hp. apply (Hone m p Hp). apply H. apply in_map_iff. exists p. split; [reflexivity|exact Hp].
+    - intros H c Hc. apply in_map_iff in Hc. destruct Hc as [p [<- Hp]].
+      apply (Hone m p Hp). apply H. exact Hp. }
+  destruct (cnf_solve_up nb (units ++ F)) as [m|] eqn:E.
+  - split; [intros _|reflexivity]. apply cnf_solve_up_some in E. destruct E as [L S].
+    unfold sat_cnf in S. rewrite forallb_app in S. apply andb_true_iff in S. destruct S as [S1 S2].
+    exists m. split; [exact L|split; [exact S2|]]. apply Hu. exact S1.
+  - split; [discriminate|]. intros [m [L [S Hp]]].
+    pose proof (cnf_solve_up_none nb _ Hwu E m L) as X.
+    pose proof (proj2 (Hu m) Hp) as Y.
+    unfold sat_cnf in X, S, Y. rewrite forallb_app in X.
+    pose proof (eq_trans (eq_sym (f_equal2 andb Y S)) X) as Z0. discriminate.
+Qed.
+
+(* ------------------------------------------------------------------ *)
+(* The case-level judges, decoding included                             *)
+
+Lemma status_fail_not_ok : forall st v i, status_fail st = Some v -> v <> Ok i.
+Proof.
+  intros st v i H. unfold status_fail in H.
+  destruct (st =? 1); [injection H as <-; discriminate|].
+  destruct (st =? 2); [injection H as <-; discriminate|discriminate].
+Qed.
+
+Theorem judge_solve_case_sound : forall pb st vd ms n P m i,
+  duproblem pb = Some (n, P) -> dbools ms = Some m ->
+  judge_solve_case (L [pb; L [I st; I vd; ms]]) = Ok i ->
+  maxvar_uproblem P <= Z.of_nat n /\ Forall wf_uc P /\ solve_correct n P vd m.
+Proof.
+  intros pb st vd ms n P m i Hp Hm H. unfold judge_solve_case in H. rewrite Hp, Hm in H.
+  destruct (Z.of_nat n <? maxvar_uproblem P) eqn:En; [discriminate|]. apply Z.ltb_ge in En.
+  split; [exact En|]. split; [apply (duproblem_wf _ _ _ Hp)|].
+  destruct (status_fail st) as [v|] eqn:Es; [exfalso; apply (status_fail_not_ok _ _ i Es); exact H|].
+  apply (judge_solve_sound _ _ _ _ _ H).
+Qed.
+
+Theorem judge_C03_sound : forall pb cts st vd w ms n P c m i,
+  duproblem pb = Some (n, P) -> omap dterm cts = Some c -> dbools ms = Some m ->
+  judge_C03 (L [L [pb; L cts]; L [I st; I vd; I w; ms]]) = Ok i ->
+  Z.max (maxvar_uproblem P) (maxvar_terms c) <= Z.of_nat n /\ opt_correct n P c vd w m.
+Proof.
+  intros pb cts st vd w ms n P c m i Hp Hc Hm H. unfold judge_C03 in H. rewrite Hp, Hc, Hm in H.
+  destruct (Z.of_nat n <? Z.max (maxvar_uproblem P) (maxvar_terms c)) eqn:En; [discriminate|].
+  apply Z.ltb_ge in En. split; [exact En|].
+  destruct (status_fail st) as [v|] eqn:Es; [exfalso; apply (status_fail_not_ok _ _ i Es); exact H|].
+  apply (judge_opt_sound _ _ _ _ _ _ _ H).
+Qed.
+
+Theorem judge_C10_sound : forall pb rounds st answers n P rs ans i,
+  duproblem pb = Some (n, P) -> dZss rounds = Some rs -> omap danswer answers = Some ans ->
+  judge_C10 (L [L [pb; rounds]; L (I st :: answers)]) = Ok i ->
+  maxvar_uproblem P <= Z.of_nat n /\ Forall2 (round_correct n P) rs ans.
+Proof.
+  intros pb rounds st answers n P rs ans i Hp Hr Ha H. unfold judge_C10 in H. rewrite Hp, Hr, Ha in H.
+  destruct (Z.of_nat n <? maxvar_uproblem P) eqn:En; [discriminate|]. apply Z.ltb_ge in En.
+  split; [exact En|].
+  destruct (existsb _ rs); [discriminate|].
+  destruct (status_fail st) as [v|] eqn:Es; [exfalso; apply (status_fail_not_ok _ _ i Es); exact H|].
+  apply (judge_rounds_sound _ _ _ _ _ _ H).
+Qed.
+
+Theorem judge_C14_sound : forall pb st vd ms learned n P m ls i,
+  duproblem pb = Some (n, P) -> dbools ms = Some m -> omap duc learned = Some ls ->
+  judge_C14 (L [pb; L [I st; I vd; ms; L learned]]) = Ok i ->
+  solve_correct n P vd m /\
+  forall c, In c ls -> forall m', List.length m' = n -> sat_uproblem m' P = true -> sat_uc m' c = true.
+Proof.
+  intros pb st vd ms learned n P m ls i Hp Hm Hl H. unfold judge_C14 in H. rewrite Hp, Hm, Hl in H.
+  destruct (Z.of_nat n <? Z.max (maxvar_uproblem P) (maxvar_uproblem ls)); [discriminate|].
+  destruct (status_fail st) as [v|] eqn:Es; [exfalso; apply (status_fail_not_ok _ _ i Es); exact H|].
+  destruct (judge_solve n P vd m) as [j| |] eqn:Ej; try discriminate.
+  destruct (first_not_entailed n P ls 0) eqn:Ef; [discriminate|].
+  split; [apply (judge_solve_sound _ _ _ _ _ Ej)|apply (first_not_entailed_sound _ _ _ _ Ef)].
+Qed.
+
+(* examples showing the hypotheses / conclusions are inhabited *)
+Example ex_judge_solve : judge_solve 2 [UC [(1, 1); (1, 2)] Ge 1] 1 [true; false] = Ok [1].
+Proof. vm_compute. reflexivity. Qed.
+Example ex_judge_opt : judge_opt 2 [UC [(1, 1); (1, 2)] Ge 1] [(3, 1); (2, 2)] 1 2 [false; true] = Ok [1; 2].
+Proof. vm_compute. reflexivity. Qed.
+Example ex_judge_history :
+  judge_history 2 [UC [(1, 1); (1, 2)] Ge 1] false [HSolve; HAdd (UC [(1, 1)] Le 0); HAdd (UC [(1, 2)] Le 0); HSolve; HSolve]
+                [(1, [true; false]); (2, []); (2, [])] 0 = Ok [3].
+Proof. vm_compute. reflexivity. Qed.
+Example ex_entailed : entailed 2 [UC [(1, 1); (1, 2)] Ge 2] (UC [(1, 1)] Ge 1) = true.
+Proof. vm_compute. reflexivity. Qed.
+Example ex_prune_up : prune_up 3 [[1; 2]; [-1; 3]; [-3]] [true] = true /\ wf_cnf [[1; 2]; [-1; 3]; [-3]].
+Proof.
+  split; [vm_compute; reflexivity|]. intros c Hc l Hl. simpl in Hc.
+  destruct Hc as [<-|[<-|[<-|[]]]]; simpl in Hl; intuition lia.
 Qed.
